@@ -27,6 +27,11 @@ def expand_names(decl):
     return out
 
 
+class RefUndefined(Exception):
+    """The reference itself is undefined at the requested point (division by zero, overflow): the
+    generated point lies outside the domain the properties are stated on.  The run is void."""
+
+
 class RefModel(object):
     def __init__(self, model, order=None):
         """order: indices of model['processes'] in event-list order (default: as listed)."""
@@ -170,9 +175,12 @@ class RefModel(object):
         fs, rows, cols = self.fn(what)
         args = [float(v) for v in x] + [float(t)] + [float(v) for v in theta]
         out = np.zeros((rows, cols))
-        for i in range(rows):
-            for j in range(cols):
-                out[i, j] = fs[i][j](*args)
+        try:
+            for i in range(rows):
+                for j in range(cols):
+                    out[i, j] = fs[i][j](*args)
+        except (ZeroDivisionError, OverflowError, ValueError) as e:
+            raise RefUndefined("%s at x=%s t=%s: %s" % (what, list(x), t, e))
         return out
 
     def rates(self, x, t, theta):
